@@ -5,7 +5,14 @@ automata were created, modified or destroyed earlier in the same process."  A de
 automaton is bound to the static `globalAlphabet_`, which grows with every automaton ever loaded.
 Reading `x.GetAlphabet()` of such a fresh local therefore reads process history.
 
-Instance: every `GetAlphabet()` call in the library sources.  Obligation: its object is `this`, a
+Two clauses.
+  result  every local automaton that an operation of an automaton core returns (directly or through a
+          further operation on it) is constructed carrying an operand's alphabet: copy-constructed from an
+          operand, given the alphabet as constructor argument, or `SetAlphabet(..)` is called on it.  A
+          constructor call whose alphabet parameter is *defaulted* binds the result to the process-wide
+          alphabet: dumping it then prints whatever symbols other automata registered (finding F14).
+  src     (below)
+Instance (src): every `GetAlphabet()` call in the library sources.  Obligation: its object is `this`, a
 parameter (or reached from one), a field, or a local on which `SetAlphabet(..)` was called or which was
 constructed as a copy of / from an operand (constructor with at least one automaton-typed or alphabet
 argument)."""
@@ -14,9 +21,48 @@ from vfacts import strip, walk, is_node, method_name, root_path
 from .prov import var_table
 
 RULE = 'ALPHASRC'
-FLOOR = 6
+FLOOR = 14
 ANCHORS = ['ExplicitTreeAutCore::ComplementWithPreorder']
 AUT = re.compile(r'(Explicit(Tree|Finite)Aut(Core)?|BDD(BU|TD)TreeAutCore|BDD(BottomUp|TopDown)TreeAut)\b')
+
+
+def base_type(t):
+    return t.replace('const ', '').replace('&', '').replace('VATA::', '').strip()
+
+
+def check_results(unit, fn, em, short):
+    rt = base_type(unit.tname(fn.d.get('ret')))
+    if not AUT.match(rt) or not fn.d.get('cls'):
+        return
+    vt = var_table(fn)
+    rets = [n for n in fn.walk(lambdas=False) if n['k'] == 'ReturnStmt']
+    returned = set()
+    for r in rets:
+        for n in walk(r):
+            if n['k'] == 'DeclRefExpr' and n.get('d') in vt and vt[n['d']]['kind'] == 'local':
+                returned.add(n['d'])
+    for d in sorted(returned):
+        v = vt[d]
+        t = unit.ty(v['decl'])
+        if base_type(t) != rt or t.rstrip().endswith('&'):
+            continue
+        init = strip(v['decl'].get('init')) if is_node(v['decl'].get('init')) else None
+        if init is None or init['k'] not in ('CXXConstructExpr', 'CXXTemporaryObjectExpr'):
+            continue
+        args = init.get('args') or []
+        defaulted = [a for a in args if is_node(a) and a['k'] == 'CXXDefaultArgExpr' and 'Alphabet' in unit.ty(a)]
+        if not defaulted:
+            if any(is_node(a) and a['k'] != 'CXXDefaultArgExpr' and (AUT.search(unit.ty(strip(a) or a)) or 'Alphabet' in unit.ty(strip(a) or a)) for a in args):
+                em.ok(v['node'], unit.text(v['node'], 60), 'result constructed from an operand / with an explicit alphabet', 'result')
+            continue
+        setalpha = any(m['k'] == 'CXXMemberCallExpr' and method_name(m) == 'SetAlphabet' and (strip(m.get('obj')) or {}).get('d') == d
+                       and not any(x['k'] == 'DeclRefExpr' and x.get('d') == d for a in m.get('args') or [] for x in walk(a))
+                       for m in fn.walk())
+        if setalpha:
+            em.ok(v['node'], unit.text(v['node'], 60), 'result is given an alphabet with SetAlphabet', 'result')
+        else:
+            em.violation(v['node'], unit.text(v['node'], 60), 'the returned automaton `%s` is constructed with the defaulted (process-wide) alphabet and never given the operand\'s: '
+                         'for an operand over its own alphabet the result prints symbols registered by unrelated automata' % (v['decl'].get('n') or '?'), 'result')
 
 
 def run(unit, em):
@@ -26,6 +72,8 @@ def run(unit, em):
         short = fn.q.replace('VATA::', '')
         anchored = False
         vt = None
+        if '/src/explicit_' in fn.file or fn.file.startswith('src/explicit_'):
+            check_results(unit, fn, em, short)
         for c in fn.walk():
             if c['k'] != 'CXXMemberCallExpr' or method_name(c) != 'GetAlphabet' or c.get('args'):
                 continue
@@ -62,6 +110,7 @@ def run(unit, em):
                     if AUT.search(ta) or 'Alphabet' in ta or 'shared_ptr' in ta:
                         from_operand = True
             setalpha = any(m['k'] == 'CXXMemberCallExpr' and method_name(m) == 'SetAlphabet' and (strip(m.get('obj')) or {}).get('d') == o['d']
+                           and not any(x['k'] == 'DeclRefExpr' and x.get('d') == o['d'] for a in m.get('args') or [] for x in walk(a))
                            for m in fn.walk())
             if from_operand or setalpha:
                 em.ok(c, txt, 'local built from an operand / given an alphabet', 'src')
